@@ -253,6 +253,11 @@ func c17Run(c *core.Ctx) {
 			}
 		}
 	}
+	for _, cs := range deepCases(c) {
+		if c.Next() {
+			c17One(c, cs)
+		}
+	}
 	for _, src := range corpus.Specials() {
 		if !c.Next() {
 			continue
